@@ -106,6 +106,7 @@ CHECKS = {
             dict(name="faults", run="^TestPropPublishFaults$", checks=(3000, 20000), shards=(2, 8)),
             dict(name="long", run="^TestPropLongHistory$", checks=(400, 4000), shards=(4, 16), shrinktime="5s"),
             dict(name="expshut", run="^TestPropExpiryDuringShutdown$", checks=(200, 2000), shards=(1, 4), shrinktime="5s"),
+            dict(name="burst", run="^TestPropQueryBurst$", checks=(300, 3000), shards=(1, 4), shrinktime="5s"),
             dict(name="twosvc", run="^TestRealNATSTwoServices$", checks=(6, 60), shards=(1, 4), shrinktime="5s"),
             dict(name="regress", run="^(TestRegress.*|TestRealNATSRelease)$", shards=(1, 1)),
         ],
